@@ -492,7 +492,11 @@ DurationType = XmlTime | XmlDateTime
 
 def _cmp(a: DurationType, b: DurationType, op: Callable) -> bool:
     if isinstance(b, a.__class__):
-        return op(a.duration, b.duration)
+        try:
+            return op(a.duration, b.duration)
+        except OverflowError:
+            # Years beyond the float range, compare the fields in order
+            return op(tuple(x or 0 for x in a), tuple(x or 0 for x in b))
 
     return NotImplemented
 
